@@ -16,7 +16,7 @@ RULE = ("eps-NFA/NFA/DFA cases as in C01 (<=5 states, emphasis on eps cycles, de
         "distinct = canonical case hash.")
 ASSUMPTIONS = ["termination is restated as bounded progress: a logical step budget on get_accepted_words"]
 TIERS = {
-    "quick": {"workers": 4, "random": 2500},
+    "quick": {"workers": 8, "random": 3000},
     "thorough": {"workers": 16, "random": 60000, "pytest": True, "exhaustive": True, "hard_timeout": 3000},
 }
 MIN = {"quick": {"C04.EpsilonNFA.is_empty": 500, "C04.EpsilonNFA.is_deterministic": 200,
@@ -187,7 +187,8 @@ def run_case(c, stats):
         if len(ref2.states) <= 6:
             call(fa.is_acyclic)
         with core.oracle_mode():
-            judge_words(fa, ref2, 2)
+            for n in (3, 1, None) if len(ref2.alpha) <= 2 else (2, None):
+                judge_words(fa, ref2, n)
     return bool(ref.trans) and not ref.is_empty()
 
 
